@@ -16,7 +16,8 @@ PROP = "C19"
 LEVEL = "fault_enumeration"
 RULE = ("case = two generated configurations (old, new; any subset of optional fields, unicode push names, binary ids, "
         "key pairs) + write-chunk size; fault-free part: save->restart->load for {profile JSON existing dir, profile JSON "
-        "never-used profile, dest=.json, dest=.yo, dest without extension in both formats, key=value into the profile}; "
+        "never-used profile, dest=.json, dest=.yo, dest without extension in both formats, key=value into the profile, two saves into one profile in all four "
+        "format orders}; "
         "crash part: EVERY syscall boundary (open/truncate, each write chunk, close, rename, mkdir, fsync) of "
         "YowProfile.write_config(new) over an existing old config is used once as the crash point, followed by a restart "
         "and load; distinct = distinct (old,new,chunk) digests; non-trivial = at least one crash point was exercised")
@@ -28,7 +29,7 @@ ASSUMPTIONS = ["six 1.17 shim on sys.path", "crash = process death: data handed 
                "do not (no power-loss model)", "key=value format compares scalar values as text (the format has no types)"]
 BUDGET = {"quick": (400, 120), "thorough": (6000, 900)}
 FAULTS = ["crash_file_boundary"]
-PROBES = ["fresh_profile", "keyval_path", "json_path", "noext_path", "crash_after_truncate", "crash_mid_write", "unicode_pushname"]
+PROBES = ["two_saves_same_profile", "fresh_profile", "keyval_path", "json_path", "noext_path", "crash_after_truncate", "crash_mid_write", "unicode_pushname"]
 SHRINK = []
 EXHAUSTIVE = {"quick": False, "thorough": False}
 _S = {}
@@ -228,6 +229,21 @@ class W(object):
         home = self.fresh_home()
         os.makedirs(self.profile_dir(home, phone))
         self._rt("profile-keyval", lambda: CM().save(phone, new, CM.TYPE_KEYVAL), lambda: CM().load(phone), new, True)
+        # 5b. two saves into the same profile in every order of formats: what is loaded is what was saved last (the
+        #     library itself always saves JSON, a tool or an older version may have left key=value behind)
+        old_cfg = _mk(case["old"])
+        for first, second in ((CM.TYPE_KEYVAL, CM.TYPE_JSON), (CM.TYPE_JSON, CM.TYPE_KEYVAL), (CM.TYPE_KEYVAL, CM.TYPE_KEYVAL),
+                              (CM.TYPE_JSON, CM.TYPE_JSON)):
+            home = self.fresh_home()
+            os.makedirs(self.profile_dir(home, phone))
+            name = {CM.TYPE_KEYVAL: "keyval", CM.TYPE_JSON: "json"}
+            label = "profile-%s-then-%s" % (name[first], name[second])
+
+            def save2(first=first, second=second):
+                CM().save(phone, old_cfg, first)
+                CM().save(phone, new, second)
+            self.probe("two_saves_same_profile")
+            self._rt(label, save2, lambda: CM().load(phone), new, True)
         # 6. files in either format placed in the profile / at a path by other means load correctly
         home = self.fresh_home()
         os.makedirs(self.profile_dir(home, phone))
